@@ -19,6 +19,8 @@ LayerFails(L, groupsAnc) ==
   \cup W(P \cap QubitsOf(G) = {}, "C17.exec.park_and_gate")
   \cup (IF G \subseteq Edges /\ Disjoint(G) THEN W(ParkSet(G) \subseteq P, "C17.exec.parking") ELSE {})
 
+\* circuit index the exposed map gives a qubit (-1: the map does not know it)
+IdxIn(map, qb) == LET m == {n \in 1..Len(map) : map[n][1] = qb} IN IF m = {} THEN -1 ELSE map[CHOOSE n \in m : TRUE][2]
 RowFails(r) ==
   CASE r.t = "layout_tables" ->
          W(SeqSet(r.qubits) = Qubits /\ Len(r.qubits) = 17, "C16.layout.qubits")
@@ -58,8 +60,7 @@ RowFails(r) ==
           \cup W({r.index_map[j][1] : j \in 1..Len(r.index_map)} = SeqSet(r.involved) \cap SeqSet(r.code)
                  /\ Cardinality({r.index_map[j][2] : j \in 1..Len(r.index_map)}) = Len(r.index_map), "C17.bijective")
           \cup W(\A k \in 1..Len(r.layers) : r.gate_idx[k] = [j \in 1..Len(r.layers[k].gates) |->
-                     <<CHOOSE x \in {r.index_map[n][2] : n \in {m \in 1..Len(r.index_map) : r.index_map[m][1] = r.layers[k].gates[j][1]}} : TRUE,
-                       CHOOSE x \in {r.index_map[n][2] : n \in {m \in 1..Len(r.index_map) : r.index_map[m][1] = r.layers[k].gates[j][2]}} : TRUE>>], "C17.indices"))
+                     <<IdxIn(r.index_map, r.layers[k].gates[j][1]), IdxIn(r.index_map, r.layers[k].gates[j][2])>>], "C17.indices"))
     [] r.t = "composite" ->
          \* exclusions: a gate is dropped iff its edge is excluded (in either orientation) or it touches an excluded qubit;
          \* with "only required parking" exactly the qubits that require parking for the kept gates are parked
